@@ -165,7 +165,9 @@ Print Assumptions C10_auto_zero_division_without_oracle_hypothesis.
    spans plus the h spacings between them, for min-content and for max-content:
      s_min c <= sum(min-content widths of its columns) + (colspan - 1) * h   (same for max) *)
 Theorem C10_colspan_cells_fit_their_columns (h : Q) (columns : list (list contrib)) (cells : list scell) :
-  exists st, preferred_columns h columns cells = Some st /    length st = length columns /    forall c, In c cells -> inside c (length columns) -> fits_min h st c /\ fits_max h st c.
+  exists st, preferred_columns h columns cells = Some st /\
+    length st = length columns /\
+    forall c, In c cells -> inside c (length columns) -> fits_min h st c /\ fits_max h st c.
 Proof. exact (preferred_columns_correct h columns cells). Qed.
 Print Assumptions C10_colspan_cells_fit_their_columns.
 
